@@ -18,6 +18,7 @@ var uKeys = [][]byte{
 	{}, []byte("a"), []byte("ab"), []byte("abc"), []byte("b"),
 	{0x00}, {0xff}, {'a', 0x00}, {'a', 0xff},
 	[]byte("f1"), []byte("f2"), []byte("f3"), []byte("d"), []byte("k"), []byte("zz"),
+	[]byte("ac"), []byte("pq"), []byte("pqr"),
 }
 
 func put(k, v []byte) []any { return []any{chainx.OpPut, k, v} }
@@ -145,9 +146,76 @@ func designateTpl() chainx.Tpl {
 	}}
 }
 
+// ---- storage shapes: one operation per block -------------------------------------
+//
+// A block of this part of the alphabet does ONE put or delete, so that a
+// history is a sequence of single storage operations landing in DIFFERENT
+// blocks: keys forming a prefix chain (a, ab, abc) with a sibling (ac; b is
+// there from the preamble), values {empty, 1 byte, 300 bytes}, every order
+// (short key first / long key first), the prefix key untouched by the later
+// block, empty overwritten by non-empty and back, delete of the long key
+// leaving the (empty-valued) short one, delete and re-creation. UA starts with
+// a=1, ab=2, b=1 (chain present, "ab" a leaf); UB starts empty (pq becomes the
+// only key of a contract, then pqr extends it).
+var shapeValues = []struct {
+	n string
+	v []byte
+}{{"empty", []byte{}}, {"1", []byte("1")}, {"long", bytes.Repeat([]byte{0xcd}, 300)}}
+
+func shapeTemplates() []chainx.Tpl {
+	var out []chainx.Tpl
+	op := func(name string, ub bool, prog []any) {
+		out = append(out, chainx.Tpl{Name: name, Build: func(w *chainx.World) ([]*transaction.Transaction, error) {
+			c := w.UA
+			if ub {
+				c = w.UB
+			}
+			return one(w.URun(1, c, prog))
+		}})
+	}
+	for _, k := range []string{"a", "ab", "abc", "ac"} {
+		for _, v := range shapeValues {
+			op("ua-put-"+k+"-"+v.n, false, []any{put([]byte(k), v.v)})
+		}
+		op("ua-del-"+k, false, []any{del([]byte(k))})
+	}
+	for _, k := range []string{"pq", "pqr"} {
+		for _, v := range shapeValues[:2] {
+			op("ub-put-"+k+"-"+v.n, true, []any{put([]byte(k), v.v)})
+		}
+		op("ub-del-"+k, true, []any{del([]byte(k))})
+	}
+	return out
+}
+
+// shapeNames selects the shape alphabet: "quick" (10), "chain" (12: the chain
+// a/ab/abc with all three values + deletes) or "all" (22).
+func shapeNames(sel string) []string {
+	switch sel {
+	case "quick":
+		return []string{"ua-put-a-empty", "ua-put-a-1", "ua-put-ab-empty", "ua-put-ab-1", "ua-put-abc-empty", "ua-put-abc-1",
+			"ua-put-ab-long", "ua-del-a", "ua-del-ab", "ua-del-abc"}
+	case "chain":
+		var out []string
+		for _, k := range []string{"a", "ab", "abc"} {
+			for _, v := range shapeValues {
+				out = append(out, "ua-put-"+k+"-"+v.n)
+			}
+			out = append(out, "ua-del-"+k)
+		}
+		return out
+	}
+	var out []string
+	for _, t := range shapeTemplates() {
+		out = append(out, t.Name)
+	}
+	return out
+}
+
 func allTemplates() []chainx.Tpl {
 	out := append(ownTemplates(), designateTpl())
-	out = append(out, chainx.TplByName("gas-transfer", "vote1", "neo-transfer", "exec-fee", "policy-storage-price", "unvote1", "empty")...)
+	out = append(out, shapeTemplates()...)
+	out = append(out, chainx.TplByName("gas-transfer", "vote1", "neo-transfer", "exec-fee", "policy-storage-price", "unvote1", "empty", "block-account3")...)
 	return out
 }
 
@@ -173,7 +241,7 @@ func tplByName(names ...string) []chainx.Tpl {
 func tplNames(thorough bool) []string {
 	q := []string{"gas-transfer", "put-ext", "del-recreate", "write-fault", "ub-same", "destroy-ub", "deploy-uc", "designate"}
 	if thorough {
-		q = append(q, "vote1", "del-all-ua", "values", "exec-fee")
+		q = append(q, "vote1", "del-all-ua", "values", "exec-fee", "block-account3")
 	}
 	return q
 }
